@@ -41,7 +41,7 @@ type Base64Decode struct {
 // Call the the function with the arguments provided.
 func (f *Base64Decode) Call(s *slip.Scope, args slip.List, depth int) slip.Object {
 	slip.CheckArgCount(s, depth, f, args, 1, 1)
-	source := string(slip.CoerceToOctets(args[0]).(slip.Octets))
+	source := string(coerceToBytes(args[0]))
 
 	decoded, err := base64.StdEncoding.DecodeString(source)
 	if err != nil {
